@@ -354,7 +354,16 @@ pub fn run(case: &Case) -> Obs {
                     let _ = std::fs::create_dir_all(parent);
                 }
                 std::fs::write(&p, bytes).expect("write work file");
-                args.push(p.to_string_lossy().into_owned());
+                // a name with a directory part stands for a DIRECTORY argument: its top directory is named once
+                match name.split_once('/') {
+                    Some((top, _)) => {
+                        let dir = d.join(top).to_string_lossy().into_owned();
+                        if !args.contains(&dir) {
+                            args.push(dir);
+                        }
+                    }
+                    None => args.push(p.to_string_lossy().into_owned()),
+                }
                 to_remove.push(p);
             }
             // a non-empty stdin is still supplied so that "stdin untouched" is observable
@@ -363,7 +372,15 @@ pub fn run(case: &Case) -> Obs {
     };
     let obs = run_with(&args, data, &case.rplan, &case.wplan);
     for p in to_remove {
-        let _ = std::fs::remove_file(p);
+        let _ = std::fs::remove_file(&p);
+        // directories made for directory arguments (only ever below the work dir)
+        let mut up = p.parent();
+        while let Some(q) = up {
+            if q == work_dir() || std::fs::remove_dir(q).is_err() {
+                break;
+            }
+            up = q.parent();
+        }
     }
     obs
 }
